@@ -25,3 +25,13 @@ package serviceinfo
 //@   sweep nooverflow,panic
 //@   requires len(kv.Key) <= 65535 && len(kv.Val) <= 65535 && kvsize(len(kv.Key), len(kv.Val)) <= 65535
 //@   ensures int(result) == kvsize(len(kv.Key), len(kv.Val))
+
+// devmod module list chunking (C16): every chunk written carries Len names and
+// starts at the number of names written before it; together they cover the list.
+//@ func serviceinfo.Devmod.writeModuleMessages
+//@   props C16 C10(sweep)
+//@   sweep bounds,panic,make,nilmem,div
+//@   invariant loop#1: chunk.Len == len(chunk.Modules) && chunk.Start + chunk.Len + len(modules) == len(arg1) && chunk.Start >= 0 && chunk.Len >= 0 && len(modules) >= 0
+//@   callassert writeModuleMessages$1#2: @chunk arg0.Len == len(arg0.Modules) && arg0.Len > 0 && arg0.Start + arg0.Len + len(modules) == len(arg1)
+//@   callassert writeModuleMessages$1#1: @last arg0.Len == len(arg0.Modules) && arg0.Start + arg0.Len == len(arg1)
+//@   callassert Encode#1: @count u(unwrap(arg1)) == u(len(modules))
